@@ -210,6 +210,39 @@ def run_scenarios(w):
                 except Exception:
                     pass
                 out.append(ev)
+    # a blocking pipeline (bound to the shared background loop) fed by emit() from a plain thread and from a callback that
+    # runs on another loop: its nodes' callbacks run on the background loop, whoever emits from wherever
+    for frm in (0, 5):
+        for shape in ("rate_limit", "buffer"):
+            c0 = w.bg_calls
+            src = Stream(asynchronous=False)
+            e1 = {"ups": [], "la": 0, "aa": 2, "ens": False, "cls": "Stream", "raised": False,
+                  "loop": [w.loop_id(src.loop)], "mode": [MODE_ID[src.asynchronous]], "bgNew": bool(w.bg_calls > c0)}
+            node = src.rate_limit(0.001) if shape == "rate_limit" else src.buffer(2)
+            e2 = {"ups": [1], "la": 0, "aa": 0, "ens": True, "cls": shape, "raised": False,
+                  "loop": [w.loop_id(src.loop), w.loop_id(node.loop)],
+                  "mode": [MODE_ID[src.asynchronous], MODE_ID[node.asynchronous]], "bgNew": False}
+            seen = []
+            ran = threading.Event()
+
+            def rec2(x, seen=seen, ran=ran):
+                seen.append(IOLoop.current())
+                ran.set()
+            sink = node.sink(rec2)
+            e3 = {"ups": [2], "la": 0, "aa": 0, "ens": False, "cls": "sink", "raised": False,
+                  "loop": [w.loop_id(src.loop), w.loop_id(node.loop), w.loop_id(sink.loop)],
+                  "mode": [MODE_ID[src.asynchronous], MODE_ID[node.asynchronous], MODE_ID[sink.asynchronous]], "bgNew": False}
+            if frm == 0:
+                t = threading.Thread(target=src.emit, args=(1,), daemon=True)
+                t.start()
+                t.join(10)
+            else:
+                call_on(w.L2, lambda: src.emit(1))
+            ran.wait(3)
+            on = 0
+            if seen:
+                on = 5 if seen[0] is w.L2 else w.loop_id(seen[0])
+            out.append([e1, e2, e3, {"run": 1, "from": frm, "on": on}])
     for lp in (w.L1, w.L2):
         lp.add_callback(lp.stop)
     return out
